@@ -337,3 +337,17 @@ func rangesField(r *core.Run, f *ssa.Function, l *cfgx.Loop, field string) bool 
 	t := rangedOver(r, f, l)
 	return t != "" && strings.HasSuffix(t, "."+field) && !strings.HasPrefix(t, "phi(") && !strings.HasPrefix(t, "builtin.append(")
 }
+
+// pathDesc renders a block path as source positions.
+func pathDesc(r *core.Run, path []*ssa.BasicBlock) string {
+	var ps []string
+	for _, b := range path {
+		for _, ins := range b.Instrs {
+			if ins.Pos().IsValid() {
+				ps = append(ps, r.P.Pos(ins.Pos()))
+				break
+			}
+		}
+	}
+	return "path: " + strings.Join(ps, " -> ")
+}
